@@ -26,13 +26,15 @@ build() { # $1 = variant
     default) go build $MODARG -tags verif -o "$ROOT/bin/vmon" ./cmd/vmon ;;
     purego)  go build $MODARG -tags "verif purego" -o "$ROOT/bin/vmon-purego" ./cmd/vmon ;;
     race)    go build $MODARG -race -tags verif -o "$ROOT/bin/vmon-race" ./cmd/vmon ;;
+    386)     GOARCH=386 go build $MODARG -tags verif -o "$ROOT/bin/vmon-386" ./cmd/vmon ;;
   esac
 }
 
 need_builds() { # which binaries a property needs
   case "$1" in
-    C06|C20) echo "default purego" ;;
-    C13)     echo "default race" ;;
+    C06|C20) echo "default purego 386" ;;
+    C13)     echo "default race 386" ;;
+    C04|C05|C10|C11|C12|C14|C15|C19) echo "default 386" ;;
     *)       echo "default" ;;
   esac
 }
@@ -40,7 +42,7 @@ need_builds() { # which binaries a property needs
 cmd="${1:-}"
 case "$cmd" in
   build)
-    for v in default purego race; do
+    for v in default purego race 386; do
       build $v || { echo "build of variant $v failed"; exit 2; }
     done
     exit 0 ;;
